@@ -38,6 +38,7 @@ func cmdExplore(args []string) {
 	repo := fs.String("repo", "/repo", "go-vise working tree")
 	workers := fs.Int("workers", 8, "workers")
 	solver := fs.String("solver", "z3", "solver binary")
+	smode := fs.String("smode", "z3", "primary solver: z3 | cvc5 (integer mode)")
 	timeout := fs.Int("timeout", 20000, "per query timeout ms")
 	quick := fs.Int("quickms", 1500, "z3 budget before the cvc5 integer-mode fallback")
 	maxPaths := fs.Int("maxpaths", 0, "path budget")
@@ -67,8 +68,9 @@ func cmdExplore(args []string) {
 		n, _ := strconv.Atoi(p[1])
 		pm[p[0]] = n
 	}
-	E := &Explorer{P: P, Run: &HarnessRun{Name: *harness, Fn: fn, Params: pm, MaxPaths: *maxPaths}, SolverBin: *solver, TimeoutMs: *timeout, Workers: *workers, Transcripts: *transcripts, QuickMs: *quick}
+	E := &Explorer{P: P, Run: &HarnessRun{Name: *harness, Fn: fn, Params: pm, MaxPaths: *maxPaths}, SolverBin: *solver, TimeoutMs: *timeout, Workers: *workers, Transcripts: *transcripts, QuickMs: *quick, SolverMode: *smode}
 	res := E.Explore()
+	fmt.Printf("fallback solver: %d queries (%d sat %d unsat %d unknown) %.1fs\n", res.Fallback.Queries, res.Fallback.Sat, res.Fallback.Unsat, res.Fallback.Unknown, res.Fallback.Time.Seconds())
 	fmt.Printf("load %.1fs explore %.1fs paths %d decisions %d queries %d (sat %d unsat %d unknown %d) solver %.1fs max %.2fs\n",
 		P.LoadTime.Seconds(), res.Wall.Seconds(), len(res.Paths), res.Decisions, res.Stats.Queries, res.Stats.Sat, res.Stats.Unsat, res.Stats.Unknown, res.Stats.Time.Seconds(), res.Stats.MaxQuery.Seconds())
 	ends := map[string]int{}
@@ -90,8 +92,11 @@ func cmdExplore(args []string) {
 	}
 	fmt.Println("covers:", res.Covers)
 	fmt.Println("asserts:", res.Asserts)
-	for _, v := range res.Violations {
+	for i, v := range res.Violations {
 		fmt.Printf("VIOLATION %s at %s classes=%v draws=%s\n", v.ID, v.Pos, v.Classes, drawStr(v.Draws))
+		rp := map[string]interface{}{"property": "dev", "harness": *harness, "params": pm, "draws": nativeDraws(v.Draws), "obligation": v.ID}
+		rb, _ := json.Marshal(rp)
+		os.WriteFile(fmt.Sprintf("/tmp/viol%d.json", i), rb, 0644)
 	}
 	for _, m := range res.Inconcl {
 		fmt.Println("INCONCLUSIVE:", m)
@@ -189,6 +194,9 @@ func cmdReplay(args []string) {
 	}
 	r := res[1]
 	fmt.Printf("harness %s with%s\nnative outcome: %s %s %s\n", rp.Harness, drawStr(rp.Draws), r.Outcome, r.FailID, r.Msg)
+	for _, o := range r.Obs {
+		fmt.Printf("  observed %s = %s\n", o.Name, o.Val)
+	}
 	reproduced := false
 	if strings.HasPrefix(rp.Obligation, "panic: ") {
 		reproduced = r.Outcome == "panic" || r.Outcome == "fatal"
